@@ -1625,3 +1625,6 @@ def replay(ctx, data):
         return False
     finally:
         shutil.rmtree(base, ignore_errors=True)
+
+
+DRIVER_OPS = ["p8"]   # per-area driver executable(s) this check talks to (built before any worker is forked)
